@@ -23,6 +23,8 @@ enum Stream {
     Bfd(std::fs::File),
     UnixSrc { rx: UnixStream, preload: Vec<u8>, consumed: usize },
     UnixSink { tx: UnixStream, rx: UnixStream, received: Vec<u8> },
+    /// a socket whose peer delivers the data in separate chunks with pauses: reads come back short
+    UnixChunks { rx: UnixStream, preload: Vec<u8>, consumed: usize },
 }
 
 fn leak(v: Vec<u8>) -> &'static mut [u8] {
@@ -84,6 +86,26 @@ fn mk(kind: &str, data: &[u8], pos: u64) -> Stream {
             drop(tx); // end of stream after the preloaded bytes
             Stream::UnixSrc { rx, preload: data.to_vec(), consumed: 0 }
         }
+        k if k.starts_with("unix_chunks") => {
+            // kind = "unix_chunks:<c1>,<c2>,..." : chunk sizes (the rest of the data goes in a last chunk)
+            let sizes: Vec<usize> = k.split(':').nth(1).unwrap_or("").split(',').filter_map(|x| x.parse().ok()).collect();
+            let (mut tx, rx) = UnixStream::pair().expect("harness: socketpair");
+            let payload = data.to_vec();
+            std::thread::spawn(move || {
+                let mut at = 0;
+                for c in sizes {
+                    let end = (at + c).min(payload.len());
+                    if tx.write_all(&payload[at..end]).is_err() {
+                        return;
+                    }
+                    at = end;
+                    std::thread::sleep(std::time::Duration::from_millis(12));
+                }
+                let _ = tx.write_all(&payload[at..]);
+                // dropping tx ends the stream
+            });
+            Stream::UnixChunks { rx, preload: data.to_vec(), consumed: 0 }
+        }
         "unix_sink" => {
             let (tx, rx) = UnixStream::pair().expect("harness: socketpair");
             rx.set_nonblocking(true).unwrap();
@@ -116,7 +138,9 @@ impl Stream {
             Stream::File(f) => fd_state(f),
             Stream::Ofd(f) => fd_state(f),
             Stream::Bfd(f) => fd_state(f),
-            Stream::UnixSrc { preload, consumed, .. } => (preload[(*consumed).min(preload.len())..].to_vec(), 0),
+            Stream::UnixSrc { preload, consumed, .. } | Stream::UnixChunks { preload, consumed, .. } => {
+                (preload[(*consumed).min(preload.len())..].to_vec(), 0)
+            }
             Stream::UnixSink { rx, received, .. } => {
                 let mut tmp = [0u8; 4096];
                 while let Ok(n) = rx.read(&mut tmp) {
@@ -275,7 +299,8 @@ fn apply(st: &mut Stream, vol: bool, op: &str, line: &Value) -> Value {
                     sread(f, bl, exact)
                 }
             }
-            Stream::UnixSrc { rx, consumed, .. } => {
+            Stream::UnixChunks { .. } if !exact => skip(),
+            Stream::UnixSrc { rx, consumed, .. } | Stream::UnixChunks { rx, consumed, .. } => {
                 let v = rd!(vol, rx, bl, exact);
                 if v["k"] == "ok" {
                     *consumed += v["n"].as_u64().unwrap_or(bl as u64) as usize;
@@ -347,6 +372,12 @@ impl Exec for StreamExec {
             let data: Vec<u8> = line["a"]["data"].as_array().expect("harness: data").iter().map(|x| x.as_u64().unwrap() as u8).collect();
             let pos = line["a"]["pos"].as_u64().unwrap_or(0);
             self.kind = kind.to_string();
+            if kind == "unix_chunks" {
+                let cs: Vec<String> = line["a"]["chunks"].as_array().map(|v| v.iter().map(|x| x.to_string()).collect()).unwrap_or_default();
+                self.kind = format!("unix_chunks:{}", cs.join(","));
+            }
+            let kind = self.kind.clone();
+            let kind = kind.as_str();
             self.vol = Some(mk(kind, &data, pos));
             self.twin = Some(mk(kind, &data, pos));
             let sv = self.vol.as_mut().unwrap().state();
@@ -357,8 +388,9 @@ impl Exec for StreamExec {
         let rs = guarded(|| apply(self.twin.as_mut().expect("harness: no stream"), false, op, line));
         let sv = self.vol.as_mut().unwrap().state();
         let ss = self.twin.as_mut().unwrap().state();
-        if rv["k"] == "err" || rs["k"] == "err" {
-            // the state after a failed exact transfer is unspecified: restart the twin from the adapter's state
+        if rv["k"] == "err" || rs["k"] == "err" || sv != ss {
+            // the state after a failed exact transfer is unspecified, and a divergence is reported once (by TLC) rather than
+            // carried into every later event: restart the twin from the adapter's state
             let data: Vec<u8> = sv["data"].as_array().unwrap().iter().map(|x| x.as_u64().unwrap() as u8).collect();
             self.twin = Some(mk(&self.kind, &data, sv["pos"].as_u64().unwrap()));
         }
